@@ -7,7 +7,7 @@ use proptest::strategy::Strategy;
 use serde::{Deserialize, Serialize};
 use serde_json::json;
 
-pub const RULE: &str = "case = (hash 0/1/2/3/16 MB, a list S of 0-5 earlier depth-limited searches of related or unrelated games, a main game with history, depth 1-8). In-process (both build profiles, 16 workers busy at once): (a) the main search run twice from identically prepared states (fresh, and fresh + S) must give identical traces - every reported depth, seldepth, score, PV, node count, hashfull, tbhits and the best move; (b) fresh + S followed by PersistentState::reset() must give the trace of a fresh state. On the shipped binary: (c) the session [setoption Hash h, S.., ucinewgame, position p, go depth d] must print the same info/bestmove lines, with time and nps removed, as a fresh process given [setoption Hash h, position p, go depth d]. Thorough: the bench node total of two concurrently running processes must agree. Non-trivial = S non-empty with at least one search of depth >= 5; distinct by case.";
+pub const RULE: &str = "case = (hash 0/1/2/3/16 MB, a list S of 0-5 earlier depth-limited searches of related or unrelated games, a main game with history, depth 1-8). In-process (both build profiles, 16 workers busy at once): (a) the main search run twice from identically prepared states (fresh, and fresh + S) must give identical traces - every reported depth, seldepth, score, PV, node count, hashfull, tbhits and the best move; (b) fresh + S followed by PersistentState::reset() must give the trace of a fresh state. On the shipped binary: (c) the session [setoption Hash h, S.. interleaved with stop (after a search has ended), go infinite / go movetime + stop, isready, earlier ucinewgame and repeated setoption, then ucinewgame, position p, go depth d] must print the same info/bestmove lines, with time and nps removed, as a fresh process given [setoption Hash h, position p, go depth d]. Thorough: the bench node total of two concurrently running processes must agree. Non-trivial = S non-empty with at least one search of depth >= 5; distinct by case.";
 
 #[derive(Serialize, Deserialize, Clone, Debug)]
 pub enum Case {
@@ -157,6 +157,137 @@ fn go_and_collect(e: &mut Engine, s: &SearchSpec) -> Result<Vec<String>, String>
     }
 }
 
+/// What may happen in a session before the final ucinewgame.
+#[derive(Serialize, Deserialize, Clone, Debug)]
+pub enum BStep {
+    Search(SearchSpec),
+    /// a stop sent although no search is running any more
+    Stop,
+    /// go infinite / go movetime 5000 on this game, stop after the delay
+    StoppedSearch { spec: SearchSpec, infinite: bool, delay_ms: u32 },
+    IsReady,
+    NewGame,
+    SetHash(usize),
+}
+
+#[derive(Serialize, Deserialize, Clone, Debug)]
+pub enum BinCase {
+    Tape(Vec<u16>),
+    Explicit { hash_mb: usize, steps: Vec<BStep>, main: SearchSpec },
+}
+
+fn bin_from_tape(data: &[u16], tier: Tier, max_depth: u8) -> Option<(usize, Vec<BStep>, SearchSpec)> {
+    let (hash_mb, priors, main) = from_tape(data, tier, max_depth)?;
+    // a second tape reading (reversed) decides what is interleaved with the earlier searches
+    let rev: Vec<u16> = data.iter().rev().copied().collect();
+    let mut t = Tape::new(&rev);
+    let mut steps = vec![];
+    for p in priors {
+        match t.pick(6) {
+            0 => steps.push(BStep::StoppedSearch { spec: p, infinite: t.pick(2) == 0, delay_ms: [0u32, 1, 5, 20, 60][t.pick(5)] }),
+            _ => steps.push(BStep::Search(p)),
+        }
+        match t.pick(8) {
+            0 | 1 => steps.push(BStep::Stop),
+            2 => steps.push(BStep::IsReady),
+            3 => steps.push(BStep::NewGame),
+            4 => steps.push(BStep::SetHash(hash_mb)),
+            _ => {}
+        }
+    }
+    Some((hash_mb, steps, main))
+}
+
+fn await_bestmove(e: &mut Engine) -> Result<(), String> {
+    loop {
+        let l = e.read_line(std::time::Duration::from_secs(120))?.ok_or("engine closed its output")?;
+        if l.starts_with("bestmove") {
+            return Ok(());
+        } else if l.contains("panic") {
+            return Err(format!("engine panicked: {l}"));
+        }
+    }
+}
+
+fn run_binary_session(hash_mb: usize, steps: &[BStep], main: &SearchSpec, st: &mut Stats) -> Result<(), Fail> {
+    let ex = || json!({"Explicit": {"hash_mb": hash_mb, "steps": steps, "main": main}});
+    if build(main).map_or(true, |(p, _)| p.legal_moves().is_empty()) {
+        return Ok(());
+    }
+    st.eval();
+    let infra_err = |e: String| Fail::new("binary:io", format!("engine process: {e}"));
+    let searchable = |s: &SearchSpec| build(s).map_or(false, |(p, _)| !p.legal_moves().is_empty());
+    let mut used = Engine::spawn(&[]).map_err(infra_err)?;
+    used.send(&format!("setoption name Hash value {hash_mb}")).map_err(infra_err)?;
+    let mut deep = false;
+    let mut stop_after_end = false;
+    for step in steps {
+        let r: Result<(), String> = (|| match step {
+            BStep::Search(p) => {
+                if !searchable(p) {
+                    return Ok(());
+                }
+                if matches!(p.limit, Limit::Depth(d) if d >= 5) {
+                    deep = true;
+                }
+                go_and_collect(&mut used, p).map(|_| ())
+            }
+            BStep::Stop => {
+                stop_after_end = true;
+                used.send("stop")
+            }
+            BStep::StoppedSearch { spec, infinite, delay_ms } => {
+                if !searchable(spec) {
+                    return Ok(());
+                }
+                used.send(&position_cmd(spec))?;
+                used.send(if *infinite { "go infinite" } else { "go movetime 5000" })?;
+                std::thread::sleep(std::time::Duration::from_millis(*delay_ms as u64));
+                used.send("stop")?;
+                deep = true;
+                await_bestmove(&mut used)
+            }
+            BStep::IsReady => {
+                used.send("isready")?;
+                loop {
+                    let l = used.read_line(std::time::Duration::from_secs(60))?.ok_or("engine closed its output")?;
+                    if l == "readyok" {
+                        return Ok(());
+                    }
+                }
+            }
+            BStep::NewGame => used.send("ucinewgame"),
+            BStep::SetHash(h) => used.send(&format!("setoption name Hash value {h}")),
+        })();
+        r.map_err(|e| Fail::new("binary:earlier_step_failed", format!("{step:?}: {e}")).explicit(ex()))?;
+    }
+    used.send("ucinewgame").map_err(infra_err)?;
+    let a = go_and_collect(&mut used, main).map_err(|e| Fail::new("binary:search_failed", e).explicit(ex()))?;
+    used.quit();
+    let mut fresh = Engine::spawn(&[]).map_err(infra_err)?;
+    fresh.send(&format!("setoption name Hash value {hash_mb}")).map_err(infra_err)?;
+    let b = go_and_collect(&mut fresh, main).map_err(|e| Fail::new("binary:search_failed", e).explicit(ex()))?;
+    fresh.quit();
+    if a != b {
+        let diff = a.iter().zip(b.iter()).find(|(x, y)| x != y).map(|(x, y)| format!("'{x}' vs '{y}'")).unwrap_or_else(|| format!("{} vs {} lines", a.len(), b.len()));
+        return Err(Fail::new("ucinewgame_not_fresh", format!("after {} earlier steps and ucinewgame the engine answers differently from a fresh process ({} {:?}): {diff}", steps.len(), main.fen, main.limit)).explicit(ex()));
+    }
+    if stop_after_end {
+        st.class("stop_sent_after_a_search_had_ended");
+    }
+    if steps.iter().any(|s| matches!(s, BStep::StoppedSearch { .. })) {
+        st.class("search_ended_by_stop");
+    }
+    if deep {
+        st.nontrivial(&format!("{hash_mb} {steps:?} {main:?}"));
+        if st.want_nontrivial_sample() {
+            st.nontrivial_sample(json!({"hash_mb": hash_mb, "steps": steps.len(), "main": main, "answer": a.last()}));
+        }
+    }
+    Ok(())
+}
+
+#[allow(dead_code)]
 fn run_binary_case(hash_mb: usize, priors: &[SearchSpec], main: &SearchSpec, st: &mut Stats) -> Result<(), Fail> {
     let ex = || json!({"Explicit": {"hash_mb": hash_mb, "priors": priors, "main": main}});
     if build(main).map_or(true, |(p, _)| p.legal_moves().is_empty()) {
@@ -210,16 +341,16 @@ pub fn run(run: &mut Run) -> &'static str {
     });
     if profile_name() == "checked" && engine_available() {
         let cases = tier.pick(160, 3_000);
-        let strat = tape(16..160).prop_map(Case::Tape);
-        run.proptest_part("binary", RULE, strat, cases, move |c: &Case, st: &mut Stats| match c {
-            Case::Tape(t) => match from_tape(t, tier, max_depth.min(6)) {
-                Some((h, p, m)) => run_binary_case(h, &p, &m, st),
+        let strat = tape(16..160).prop_map(BinCase::Tape);
+        run.proptest_part("binary", RULE, strat, cases, move |c: &BinCase, st: &mut Stats| match c {
+            BinCase::Tape(t) => match bin_from_tape(t, tier, max_depth.min(6)) {
+                Some((h, p, m)) => run_binary_session(h, &p, &m, st),
                 None => {
                     st.discard();
                     Ok(())
                 }
             },
-            Case::Explicit { hash_mb, priors, main } => run_binary_case(*hash_mb, priors, main, st),
+            BinCase::Explicit { hash_mb, steps, main } => run_binary_session(*hash_mb, steps, main, st),
         });
         if tier == Tier::Thorough && run.replay.is_none() && run.only_parts.is_empty() {
             // bench node totals of two concurrent processes
